@@ -27,5 +27,5 @@ def search(ctx):
 MANIFEST = dict(
     text="Theorems over the Bits64/LowEntropy model (PDEP/PEXT structurally, as the index-by-index Intel SDM pseudo code and as the portable Go loops, the three proved equal for every x and every 64-bit mask, chunk-mask rotation, encoder, decoder, metadata validation) proved for every body of 1..8191 chunks, every mode, every half mask of the mode's weight, all 31 rotations and both padding polarities: round trip, encoded size, canonicity of every accepted stream, rejection of invalid parameters/lengths/mixed padding, metadata ties the two lengths and agrees with Wire.v's (C09) unmarshal validity for types 10/11; constants regenerated from /repo; the model's executable definitions are compared with pkg/protocol and pkg/mathext (portable and BMI2 paths) on structured inputs, a malformed stream and >= 10^6 PDEP/PEXT pairs, and every case is also judged against docs/protocol.md and the Intel pseudo code by references written in the driver.",
     note="Partial for the hardware path: PDEPQ/PEXTQ are compared with the portable loops and the Intel definition on the sampled pairs on the CPU of the run, not proved. RotateLeft64/OnesCount32/big-endian are modelled by specification and compared on every case. Error classes matched by message substring.",
-    technique="Coq proof (structural recursion on the mask's binary representation, N/Z arithmetic) of codec round-trip/canonicity/rejection theorems + differential run of the extracted model against pkg/protocol and pkg/mathext",
+    technique="Coq proof (structural recursion on the mask's binary representation, N/Z arithmetic) of codec round-trip/canonicity/rejection theorems; pdep/pext loops, mask rotation, mode table and validateLowEntropyCodecParams translated from the Go source on every run (go2coq) and proved equal to the model (C17_source_*) + differential run of the extracted model against pkg/protocol and pkg/mathext",
 )
